@@ -72,6 +72,16 @@ theorem cut_spec (ns : List T) (ha : atomicL ns = true)
     refine ⟨out, ?_, hunits⟩
     simp only [cutList, cutEach_map (n :: ns) h.1, hfin]
 
+/-- **Reversed markers always raise** (and the raise is always caught and reported, see
+`cut_error_only_reversed`): with at most one start and one end marker, an end marker placed before
+the start marker makes `bound_included_AST` raise - at whatever depth the two markers sit. -/
+theorem cut_reversed_raises (ns : List T) (ha : atomicL ns = true)
+    (hcS : (unitsL ns).countP pS ≤ 1) (hcE : (unitsL ns).countP pE ≤ 1)
+    (hrev : reversed (unitsL ns) = true) : ∃ m, cutList ns = .error m := by
+  rcases cutEach_reversed ns ha hcS hcE hrev with ⟨m, hm⟩ | ⟨rs, hrs, m, hfin⟩
+  · exact ⟨m, by simp [cutList, hm]⟩
+  · exact ⟨m, by simp [cutList, hrs, hfin]⟩
+
 /-- what `between` is, spelled out: units before the start marker and after the end marker are
 gone, everything from the one to the other is kept in order -/
 theorem between_explicit (pre mid post : List Tag) (s e : Tag)
